@@ -5,6 +5,11 @@ from ..core import modules_for
 
 def run(ctx):
     q = ctx.tier == "quick"
+    if getattr(ctx, "replay", None):
+        from .. import stagecamp
+        text = open(ctx.replay).read()
+        if stagecamp.is_replay(text):
+            return stagecamp.replay(ctx, ctx.replay, text)
     run_common(ctx, "C04", modules_for("C04"), stride=2 if q else 1, l1_scripts=250 if q else 2500)
     if not getattr(ctx, "replay", None):
         from .. import cafw64
@@ -35,3 +40,7 @@ def run(ctx):
         voxcamp.run(ctx, "C04", 80 if q else 800)
         from .. import setcmds        # conversion / header setters (SFC_TEST_IEEE_FLOAT_REPLACE, ...) issued between the writes of an SFM_WRITE handle (lean/SfProps/C04IeeeReinit.lean)
         setcmds.run(ctx, "C04", kinds=("new-w",))
+        from .. import stagecamp      # (round 9) ONE short transfer inside the staging loop of EVERY write kernel (Sf.StageLoop; N accepted = frames in the closed file)
+        stagecamp.run(ctx, "C04")
+        from .. import rawwrite       # (round 9) sf_write_raw as the write entry point of a file made in SFM_WRITE: every sample-granular (container, encoding), content behind the audio
+        rawwrite.run(ctx, "C04")
